@@ -809,7 +809,7 @@ func c17Maps(c *Ctx, p *Prog) {
 			c.Bad(R, mr.Key, p.pos(mr.Pos), "the legacy tables depend on map iteration order: "+mr.Reasons[0], mr.Reasons...)
 		}
 	}
-	c.Floor(R, "map ranges in package benchstat", n, 2)
+	c.Floor(R, "map ranges in package benchstat", n, 1)
 }
 
 // suffixTableUnambiguous evaluates the side obligation on the map literal of metricSuffix.
